@@ -17,6 +17,9 @@ INT_RANGE = {'y': (0, 255), 'n': (-2**15, 2**15 - 1), 'q': (0, 2**16 - 1),
 WORDS = ['a', 'b', 'foo', 'Bar', 'x1', 'org', 'test', 'Obj', 'z_9', 'com']
 STRINGS = ['', 'a', 'hello', 'x\r\ny', '\r\n', 'héllo', '€', '/a/b', 'a.b.c',
            'x' * 31, 'l', 'B', '\r', '\n\r\n']
+# when values must pass through txdbus's *inferring* variant marshaller, variants hold basic
+# types only (the inferred signature of a container depends on its first element)
+SIMPLE_VARIANTS = [False]
 DOUBLES = [0.0, 1.5, -2.25, 1e300, float('inf'), float('-inf'), float('nan'), -0.0]
 
 
@@ -104,7 +107,7 @@ def value(ds, t, depth=2):
     if c in '({':
         return tuple(value(ds, st, depth - 1) for st in rc.split_sig(t[1:-1]))
     if c == 'v':
-        s = single_type(ds, max(0, depth - 1))
+        s = single_type(ds, 0 if SIMPLE_VARIANTS[0] else max(0, depth - 1))
         return V(s, value(ds, s, depth - 1))
     raise ValueError(t)
 
@@ -136,9 +139,7 @@ def to_variant(t, v):
     c = t[0]
     if c in tm.variantClassMap:
         return tm.variantClassMap[c](v)
-    if c in 'bsd':
-        return v
-    if c == 'i':
+    if c in 'bsdi':
         return v
     raise ValueError('no exact variant wrapper for %r' % t)
 
@@ -173,3 +174,13 @@ def random_message(ds, serial, big_ok=True, mtypes=(1, 2, 3, 4), maxsig=3):
     m = rc.Msg(mt, serial, f, sig, b, flags, little, extra, order)
     m.encode()
     return m
+
+
+def tx_body(ds, sig, depth=2):
+    """(reference body, the same values as Python objects txdbus can marshal under sig)"""
+    SIMPLE_VARIANTS[0] = True
+    try:
+        ref = body(ds, sig, depth)
+    finally:
+        SIMPLE_VARIANTS[0] = False
+    return ref, [to_txdbus(t, v) for t, v in zip(rc.split_sig(sig), ref)]
